@@ -46,7 +46,41 @@ def _names(e: ast.AST) -> List[str]:
     return [n.id for n in ast.walk(e) if isinstance(n, ast.Name)]
 
 
-def _assigned_between(fn: ast.AST, names: Iterable[str], start: Tuple[int, int], stop: Tuple[int, int]) -> bool:
+def _exclusive(a: ast.AST, b: ast.AST) -> bool:
+    """a and b lie in different branches of one if statement."""
+    def branches(n: ast.AST):
+        out = {}
+        child, p = n, parent(n)
+        while p is not None:
+            if isinstance(p, ast.If):
+                if child in p.body:
+                    out[id(p)] = "body"
+                elif child in p.orelse:
+                    out[id(p)] = "orelse"
+            child, p = p, parent(p)
+        return out
+    ba, bb = branches(a), branches(b)
+    return any(k in bb and bb[k] != v for k, v in ba.items())
+
+
+def assignments_between(fn: ast.AST, name: str, start: Tuple[int, int], use: ast.AST) -> List[ast.AST]:
+    """Statements assigning `name` textually between `start` and `use` that are
+    not in a branch exclusive with `use`."""
+    out: List[ast.AST] = []
+    stop = _pos(use)
+    for n in ast.walk(fn):
+        tgt: List[ast.AST] = []
+        if isinstance(n, ast.Assign):
+            tgt = list(n.targets)
+        elif isinstance(n, (ast.AugAssign, ast.AnnAssign)):
+            tgt = [n.target]
+        for t in tgt:
+            if isinstance(t, ast.Name) and t.id == name and start <= _pos(n) < stop and not _exclusive(n, use):
+                out.append(n)
+    return out
+
+
+def _assigned_between(fn: ast.AST, names: Iterable[str], start: Tuple[int, int], stop: Tuple[int, int], use: Optional[ast.AST] = None) -> bool:
     ns = set(names)
     for n in ast.walk(fn):
         tgt: List[ast.AST] = []
@@ -62,11 +96,13 @@ def _assigned_between(fn: ast.AST, names: Iterable[str], start: Tuple[int, int],
             for x in ast.walk(t):
                 if isinstance(x, ast.Name) and x.id in ns and isinstance(x.ctx, ast.Store):
                     if start <= _pos(n) < stop:
+                        if use is not None and _exclusive(n, use):
+                            continue
                         return True
     return False
 
 
-def facts_at(node: ast.AST, fn: ast.AST) -> List[Fact]:
+def facts_at(node: ast.AST, fn: ast.AST, kill: bool = True, skip_raise_siblings: bool = False) -> List[Fact]:
     raw: List[Tuple[ast.AST, bool, Tuple[int, int]]] = []
 
     def add(test: ast.AST, truth: bool) -> None:
@@ -110,6 +146,10 @@ def facts_at(node: ast.AST, fn: ast.AST) -> List[Fact]:
                     if isinstance(s, ast.Assert):
                         add(s.test, True)
                     elif isinstance(s, ast.If):
+                        if skip_raise_siblings and not s.orelse and s.body and isinstance(s.body[-1], ast.Raise):
+                            # an earlier `if c: raise` only adds the path condition
+                            # `not c`; for "is the input rejected" it is immaterial
+                            continue
                         if always_exits(s.body) and not s.orelse:
                             add(s.test, False)
                         elif s.orelse and always_exits(s.orelse) and not always_exits(s.body):
@@ -123,7 +163,7 @@ def facts_at(node: ast.AST, fn: ast.AST) -> List[Fact]:
     out: List[Fact] = []
     here = _pos(node)
     for test, truth, at in raw:
-        if _assigned_between(fn, _names(test), at, here):
+        if kill and _assigned_between(fn, _names(test), at, here, node):
             continue
         out.extend(_split(test, truth))
     return out
